@@ -13,7 +13,7 @@ SUPPORTED_LEAVES = [
 UNSUPPORTED_LEAVES = {
     "-anewer f": "AccessNewer", "-cnewer f": "ChangeNewer", "-mnewer f": "ModifyNewer", "-fstype ext4": "FsType", "-group g": "Group",
     "-ilname x": "InsensitiveLinkName", "-iregex r": "InsensitiveRegex", "-regex r": "Regex", "-samefile s": "Samefile", "-user u": "User",
-    "-nouser": None, "-nogroup": None, "-prune": "Prune", "-ls": "List", "-fls out": "FileList",
+    "-nouser": None, "-nogroup": None, "nope": "XDev", "-prune": "Prune", "-ls": "List", "-fls out": "FileList",
     "-printf '%d'": "Depth", "-printf '%D'": "DeviceNumber", "-printf '%F'": "FsType", "-printf '%l'": "SymbolicTarget",
     "-printf '%M'": "PermissionsSymbolic", "-printf '%Y'": "TypeSymlink", "-printf '%Z'": "SecurityContext",
     "-printf 'a%pb%Zc\\n'": "SecurityContext", "-fprintf o '%s %d'": "Depth",
